@@ -274,7 +274,7 @@ def generate(root):
             spec = importlib.util.spec_from_file_location('xdoc_extractor_' + fn[:-3], os.path.join(exdir, fn))
             m = importlib.util.module_from_spec(spec)
             spec.loader.exec_module(m)
-            emit('/-! ---- from tools/extractors/%s -/' % fn)
+            emit('/-! from tools/extractors/%s -/' % fn)
             try:
                 m.extract(api)
             except Exception as ex:
